@@ -342,6 +342,13 @@ def wrap_for_stream(v: Any) -> Any:
     return [v] if isinstance(v, Ref) else v
 
 
+def safe_repr(v: Any) -> Optional[str]:
+    try:
+        return repr(v)
+    except RecursionError:
+        return None
+
+
 def judge(rec, v: Any, sp: bytes, feats, boundary: str, bufsiz: int, outcome: Tuple[str, Any], tag: Optional[str]) -> None:
     rec.count("b:" + boundary)
     if outcome[0] == "exc":
@@ -350,7 +357,7 @@ def judge(rec, v: Any, sp: bytes, feats, boundary: str, bufsiz: int, outcome: Tu
         msg = compare(v, outcome[1])
     if msg is None:
         return
-    rec.fail(_key(boundary, msg, tag), {"value": repr(v), "spelling": sp, "boundary": boundary, "bufsiz": bufsiz, "features": sorted(feats), "tag": tag},
+    rec.fail(_key(boundary, msg, tag), {"value": safe_repr(v), "spelling": sp, "boundary": boundary, "bufsiz": bufsiz, "features": sorted(feats), "tag": tag},
              "boundary=%s BUFSIZ=%d spelling=%r: %s" % (boundary, bufsiz, sp[:400], msg))
 
 
@@ -410,12 +417,12 @@ def run_batch(rec, rng: random.Random, batch: List[Tuple[Any, bytes, set, List[i
             judge(rec, v, sp, feats, "objstm", bs, res[n], tag)
             rec.case(None, False)
     for v, sp, feats, marks in batch:
-        rec.case(chash(repr(v), sp), bool(feats))
+        rec.case(chash(safe_repr(v), sp), bool(feats))
         for f in feats:
             rec.see("features", f)
         rec.count("spellings")
         if rec.want_sample() and len(sp) < 160 and len(feats) >= 3:
-            rec.sample({"value": repr(v), "spelling": sp, "features": sorted(feats)})
+            rec.sample({"value": safe_repr(v), "spelling": sp, "features": sorted(feats)})
 
 
 def run_shard(spec: Dict[str, Any], rec) -> None:
@@ -505,8 +512,21 @@ def replay(case: Dict[str, Any]) -> List[Tuple[str, str]]:
     sys.setrecursionlimit(20000)
     _install_fillbuf_recorder()
     env = {"HexStr": HexStr, "Name": Name, "Ref": Ref, "Real": Real}
-    exp = eval(case["value"], env)  # noqa: S307 - repr written by this check
     sp = case["spelling"]
+    if case["value"] is None:
+        # value too deeply nested to be written out: compare the readings at all buffer sizes with each other
+        ref = None
+        for bs in [4096, 1, 2, 3, 5, 7, 16, 64]:
+            try:
+                got = _plain(read_stream(sp, bs))
+            except Exception as e:  # noqa: BLE001
+                return [("mismatch:stream:exception", "deep value, BUFSIZ=%d: %s: %s" % (bs, type(e).__name__, e))]
+            if ref is None:
+                ref = got
+            elif got != ref:
+                return [("mismatch:stream:array", "deep value reads differently at BUFSIZ=%d" % bs)]
+        return []
+    exp = eval(case["value"], env)  # noqa: S307 - repr written by this check
     boundary = case.get("boundary", "stream")
     tag = case.get("tag")
     for bs in [int(case.get("bufsiz", 4096)), 1, 2, 3, 5, 7, 16, 64, 4096]:
@@ -514,3 +534,29 @@ def replay(case: Dict[str, Any]) -> List[Tuple[str, str]]:
         if msg:
             return [(_key(boundary, msg, tag), "boundary=%s BUFSIZ=%d spelling=%r: %s" % (boundary, bs, sp[:300], msg))]
     return []
+
+
+def _plain(o: Any) -> Any:
+    """Iteratively flatten a pdfminer value into a comparable token list (deep values)."""
+    from pdfminer.pdftypes import PDFObjRef
+    from pdfminer.psparser import PSLiteral
+
+    out: List[Any] = []
+    st = [o]
+    while st:
+        x = st.pop()
+        if isinstance(x, list):
+            out.append("[%d" % len(x))
+            st.extend(reversed(x))
+        elif isinstance(x, dict):
+            out.append("{%d" % len(x))
+            for k2, v2 in reversed(list(x.items())):
+                st.append(v2)
+                st.append("key:" + str(k2))
+        elif isinstance(x, PSLiteral):
+            out.append(("N", x.name))
+        elif isinstance(x, PDFObjRef):
+            out.append(("R", x.objid))
+        else:
+            out.append(x)
+    return out
